@@ -587,6 +587,45 @@ theorem factorial_guard_iff (n : Nat) : factorialGuard n = stop ↔ ¬ factorial
 
 example : factorialMeaningful 170 ∧ factorialGuard 171 = stop := by decide
 
+/-- a `Factorial` call beyond 170 terminates WHATEVER the earlier calls of the process were (any table size) -/
+theorem factorialHist_guard_iff (ns : List Nat) :
+    ∀ size : Nat, factorialHistGuard size ns = stop ↔ ¬ factorialHistMeaningful ns := by
+  induction ns with
+  | nil => intro size; simp [factorialHistGuard, stop, pass]
+  | cons n ns ih =>
+    intro size
+    unfold factorialHistGuard factorialStep
+    by_cases h : n > 170
+    · rw [if_pos h]; simp only [true_iff]
+      intro hh; have := hh n (List.mem_cons_self); omega
+    · rw [if_neg h]; simp only []
+      rw [ih]
+      simp only [factorialHistMeaningful, List.mem_cons, forall_eq_or_imp]
+      have : n ≤ 170 := by omega
+      simp [this]
+
+/-- the memo table never grows beyond 171 entries (0! … 170!): no overflowed value is ever tabulated -/
+theorem factorialStep_table_bounded (size n size' : Nat) (hs : size ≤ 171) (h : factorialStep size n = .ok size') :
+    size' ≤ 171 := by
+  unfold factorialStep at h
+  split at h
+  · simp at h
+  · simp only [Except.ok.injEq] at h
+    subst h
+    split <;> omega
+
+/-- a sequence of guarded calls in one process stops iff one of the calls stops -/
+theorem seqGuard_iff (gs : List G) : seqGuard gs = stop ↔ ∃ g ∈ gs, g = stop := by
+  induction gs with
+  | nil => simp [seqGuard, stop, pass]
+  | cons g gs ih =>
+    unfold seqGuard
+    cases g with
+    | error e => cases e; simp [stop]
+    | ok u => simp only []; rw [ih]; simp [stop]
+
+example : factorialHistGuard 1 [165, 171] = stop ∧ factorialHistGuard 1 [165, 170] = pass := by decide
+
 theorem binomial_guard_iff (n k : Int) : binomialGuard n k = stop ↔ ¬ binomialMeaningful n k := by
   unfold binomialGuard binomialMeaningful stop pass
   split <;> simp_all
